@@ -11,6 +11,7 @@ visited) — a mirror difference that the certificate covers is drift, not a vio
 import glob
 import os
 import vlib
+from fractions import Fraction
 from vlib import nat, natlist, zlit, zlist, blist, coqlist
 
 INFO = {
@@ -171,8 +172,9 @@ def gen_big_graph(rng):
 def gen_case(rng, scenario=None):
     big = rng.random() < .2
     n = rng.choice([1, 2, 3, 3, 4, 4, 5, 5, 6, 6, 7, 8, 9])
-    shape = rng.choice(["random", "random", "forward", "ring"])
-    costmode = rng.choice(["mixed", "mixed", "mixed", "unit", "zero", "zeroheavy", "large"])
+    shape = rng.choice(["random", "random", "forward", "ring", "chain"])
+    costmode = rng.choice(["mixed", "mixed", "mixed", "unit", "zero", "zeroheavy", "large", "neartie"])
+    tie_base = rng.choice([10 ** 5, 10 ** 6, 10 ** 7, 10 ** 9])
     succ = []
     for s in range(n):
         deg = rng.choice([0, 1, 1, 2, 2, 2, 3, 3])
@@ -191,14 +193,23 @@ def gen_case(rng, scenario=None):
                 c = 0
             elif costmode == "large":       # big magnitudes, gaps of 1 between totals that must be told apart
                 c = rng.choice([0, 1, 10 ** 6, 10 ** 6 + 1, 10 ** 9, 10 ** 9 + 1])
+            elif costmode == "neartie":     # every edge about B: routes with the same number of hops differ by a relative 1e-5..1e-9
+                c = tie_base + rng.choice([0, 0, 1, 2, 3])
             elif costmode == "zeroheavy":
                 c = rng.choice([0, 0, 0, 1, 2])
             else:
                 c = rng.choice([0, 1, 1, 2, 2, 3, 4])
             row.append([a, t, c])
         succ.append(row)
+    if shape == "chain" and n > 1:      # one forward action per state (+ a few back edges): every plan has n-1 steps
+        succ = [[[rng.randrange(4), i + 1, succ[i][0][2] if succ[i] else 1]] for i in range(n - 1)] + [[]]
+        for i in range(1, n - 1):
+            if rng.random() < .3:
+                succ[i].append([(succ[i][0][0] + 1) % 4, rng.randrange(i + 1), rng.choice([0, 1, 2])])
     r = rng.random()
-    if r < .08:
+    if shape == "chain" and n > 1:
+        goal = [s == n - 1 for s in range(n)]
+    elif r < .08:
         goal = [False] * n
     else:
         k = rng.choice([1, 1, 1, 2, 2, 3])
@@ -206,7 +217,7 @@ def gen_case(rng, scenario=None):
         if shape == "forward" and rng.random() < .7:
             gs = {n - 1} | (set(rng.sample(range(n), 1)) if rng.random() < .3 else set())
         goal = [s in gs for s in range(n)]
-    start = 0 if (shape == "forward" and rng.random() < .8) else rng.randrange(n)
+    start = 0 if (shape == "chain" or (shape == "forward" and rng.random() < .8)) else rng.randrange(n)
     nongoal = [s for s in range(n) if not goal[s]]
     if goal[start] and nongoal and rng.random() < .8:
         start = rng.choice(nongoal)
@@ -225,8 +236,12 @@ def gen_case(rng, scenario=None):
         case["repr"] = rng.choice(kinds) + "/" + rng.choice(kinds)
     # heuristic (as a COST per state; msdm gets heuristic_value = -cost)
     d = exact_dist(case)
-    hk = rng.choice(["zero", "exact", "half", "exact", "half", "exact_inf"] + (["zero", "zero", "half"] if big else []))
-    if hk == "zero":
+    hk = rng.choice(["zero", "exact", "half", "exact", "half", "exact_inf", "scaled", "scaled"] + (["zero", "zero", "half"] if big else []))
+    case["h_scale"] = [1, 1]
+    if hk == "scaled":          # "scaled exact": k * (exact cost-to-go) for a float k in (0,1): half-integers, or non-dyadic values
+        case["h_scale"] = rng.choice([[1, 2], [1, 2], [3, 4], [7, 10], [1, 3], [1, 10]])
+        h = ["inf" if x is None else x for x in d] if rng.random() < .3 else [BIG if x is None else x for x in d]
+    elif hk == "zero":
         h = [0] * n
     elif hk == "exact":
         h = [BIG if x is None else x for x in d]
@@ -248,7 +263,7 @@ def gen_case(rng, scenario=None):
         case["relaxed_succ"] = [[[a, t, rng.choice([c // 2, c // 2, 0, c])] for a, t, c in row] for row in succ]
         case["relaxed_repr"] = rng.choice(qk) + "/" + rng.choice(qk)
         dr = exact_dist(dict(case, succ=case["relaxed_succ"]))
-        case["heuristic"], case["h"] = "nested", ["inf" if x is None else x for x in dr]
+        case["heuristic"], case["h"], case["h_scale"] = "nested", ["inf" if x is None else x for x in dr], [1, 1]
     case["tie"] = rng.choice(["lifo", "fifo", "random"])
     case["shuffle"] = rng.random() < .5
     case["seed"] = rng.choice([0, rng.randrange(10 ** 6), rng.randrange(10 ** 6)]) if (case["tie"] == "random" or case["shuffle"]) else None
@@ -258,8 +273,10 @@ def gen_case(rng, scenario=None):
     if case["labels"] == "perm":
         case["perm"] = [3 * x - 4 for x in rng.sample(range(n), n)]
     case["alabels"] = rng.choice(["int", "int", "int", "str", "str", "tuple"])
-    case["num_type"] = rng.choice(["float", "float", "int"])
-    case["actions_container"] = rng.choice(["tuple", "list", "dict", "iter"])
+    case["num_type"] = rng.choice(["float", "float", "int", "float32"])
+    if case["num_type"] == "float32" and any(c >= 2 ** 24 for row in succ for _, _, c in row):
+        case["num_type"] = "float"            # msdm must be given exactly the costs of the generated problem
+    case["actions_container"] = rng.choice(["tuple", "list", "dict", "iter", "shared_list", "shared_list"])
     case["shared_dists"] = rng.random() < .3
     case["tabular"] = "/" in case["repr"] and rng.random() < .2
     case["replan"] = rng.random() < .25
@@ -270,16 +287,18 @@ def gen_case(rng, scenario=None):
         if rng.random() < .4:     # ONE A* object and ONE BFS object plan on both problems (zero heuristic fits both)
             case["shared_planner"] = True
             for c in (case, other):
-                c["heuristic"], c["h"] = "zero", [0] * c["n"]
+                c["heuristic"], c["h"], c["h_scale"] = "zero", [0] * c["n"], [1, 1]
             for k in ("tie", "shuffle", "seed", "bfs_seed", "num_type", "assert_monotone"):
                 other[k] = case[k]
+        case["late_policy"] = rng.random() < .5      # the first results are only read after the second problem was planned
         case["other"] = other
     return case
 
 
 def consistent(case):
     inf = float("inf")
-    h = [inf if x == "inf" else x for x in case["h"]]
+    k = Fraction(*case.get("h_scale", [1, 1]))
+    h = [inf if x == "inf" else k * x for x in case["h"]]
     for s in range(case["n"]):
         if case["goal"][s] and h[s] != 0:
             return False
@@ -296,8 +315,27 @@ INF_PROBE = {"n": 3, "succ": [[[0, 1, 0], [1, 2, 5]], [[0, 2, 0]], []], "goal": 
              "shuffle": False, "seed": None, "bfs_seed": None, "fixed": "infinite-heuristic-probe"}
 
 
+def near_tie_large(case, d):
+    """a state reachable from the start where two actions lead to DIFFERENT finite totals >= 1e5 that differ by a
+    relative 1e-5 or less (an isclose-style comparison would confuse them)"""
+    seen, todo = {case["start"]}, [case["start"]]
+    while todo:
+        s = todo.pop()
+        if case["goal"][s]:
+            continue
+        qs = sorted({c + d[t] for _, t, c in case["succ"][s] if d[t] is not None})
+        if any(b >= 10 ** 5 and 0 < b - a <= b * 1e-5 for a, b in zip(qs, qs[1:])):
+            return True
+        for _, t, _ in case["succ"][s]:
+            if t not in seen:
+                seen.add(t)
+                todo.append(t)
+    return False
+
+
 def features(case):
     d = exact_dist(case)
+    du = exact_dist(case, unit=True)[case["start"]]
     zc = any(c == 0 for row in case["succ"] for _, _, c in row)
     return {"start_is_goal": case["goal"][case["start"]], "no_goal_reachable": d[case["start"]] is None,
             "zero_cost_edge": zc, "self_loop": any(t == s for s, row in enumerate(case["succ"]) for _, t, _ in row),
@@ -312,13 +350,19 @@ def features(case):
             "replan_same_planner": case.get("replan", False), "shared_planner_two_problems": case.get("shared_planner", False),
             "assert_monotone_off": not case.get("assert_monotone", True), "large_costs": any(c >= 10 ** 6 for row in case["succ"] for _, _, c in row),
             "family_" + case.get("family", "small"): True, "out_degree_ge_8": any(len(row) >= 8 for row in case["succ"]),
-            "seed_0": case.get("seed") == 0 or case.get("bfs_seed") == 0, "start_0": case["start"] == 0, "single_state": case["n"] == 1}
+            "seed_0": case.get("seed") == 0 or case.get("bfs_seed") == 0, "start_0": case["start"] == 0, "single_state": case["n"] == 1,
+            "near_tie_large_totals": near_tie_large(case, d), "min_steps_eq_n_minus_1": du is not None and du == case["n"] - 1 and case["n"] > 2,
+            "min_steps_ge_1000": du is not None and du >= 1000, "every_state_at_most_one_action": all(len(r) <= 1 for r in case["succ"]) and case["n"] > 1,
+            "h_scale_%d_%d" % tuple(case.get("h_scale", [1, 1])): True, "late_policy_read": case.get("late_policy", False),
+            "n_states_eq_n_action_labels": case["n"] == len({a for r in case["succ"] for a, _, _ in r}) and case["n"] > 1}
 
 
 # ---------------------------------------------------------------------------
 # Gallina literals
 # ---------------------------------------------------------------------------
-def graph_term(case):
+def graph_term(case, mult=1):
+    if mult != 1:               # every cost times `mult` (mirror runs with a heuristic p/q * h: keys times q are integers)
+        case = dict(case, succ=[[[a, t, c * mult] for a, t, c in row] for row in case["succ"]])
     if case.get("long"):        # numbers in binary (a unary nat literal per state would be huge)
         succs = coqlist(coqlist("mkEz %d %d %d" % (a, t, c) for a, t, c in row) for row in case["succ"])
         return "%s %s (Z.to_nat %d)" % (succs, blist(case["goal"]), case["start"])
@@ -439,7 +483,9 @@ def run(ctx):
         units.append((parent, parent, res))
         if parent.get("scenario") == "two_wrappers":
             units.append((parent, parent["other"], res["other"]))
-    n_nested_h = n_long_checks = 0
+    n_nested_h = n_long_checks = n_nondyadic = 0
+    mirror_mult = {}
+    n_requery = n_rerun = 0
     branch = {"astar_runs_with_10plus_repushes": 0, "astar_max_repushes_in_a_run": 0, "astar_runs_with_repush": 0, "astar_runs_with_stale_pop": 0, "astar_goal_popped": 0, "astar_fell_through": 0,
               "bfs_goal_popped": 0, "bfs_fell_through": 0}
     for i, (parent, case, res) in enumerate(units):
@@ -454,6 +500,22 @@ def run(ctx):
         branch["astar_runs_with_10plus_repushes"] += res["astar"].get("repushes", 0) >= 10
         branch["astar_max_repushes_in_a_run"] = max(branch["astar_max_repushes_in_a_run"], res["astar"].get("repushes", 0))
         branch["astar_runs_with_stale_pop"] += res["astar"].get("stale_pops", 0) > 0
+        if case is parent:
+            if res.get("mutated"):
+                ctx.violation("C05:search:mutates-caller-objects",
+                              {"case": parent, "objects": res["mutated"],
+                               "clause": "a search changed an object owned by the caller (the list returned by actions(s) / a distribution object): "
+                                         "the problem after the call is not the problem that was handed in"}, found=True)
+            if "requery_same" in res:
+                n_requery += 1
+                if not res["requery_same"]:
+                    ctx.violation("C05:search:first-result-changes-after-second-problem",
+                                  {"case": parent, "clause": "path / policy / visited of the first result read differently after a second problem was planned"}, found=True)
+            if "rerun_same" in res:
+                n_rerun += 1
+                if not res["rerun_same"]:
+                    ctx.violation("C05:search:same-problem-second-time-differs",
+                                  {"case": parent, "clause": "building and solving the same problem again later in the same process gives a different result (state kept at class / module level)"}, found=True)
         if "h_seen" in res["astar"]:
             # the nested searches' path values must be the exact relaxed costs-to-go (they are A* results themselves)
             for st, v in res["astar"]["h_seen"].items():
@@ -528,11 +590,18 @@ def run(ctx):
                 meta.append(("mir", i, alg))
             else:
                 tb = {"lifo": "tbs_lifo", "fifo": "tbs_fifo"}.get(case["tie"]) or "(tbs_of %s)" % zlist(out["randoms"])
+                p_, q_ = case.get("h_scale", [1, 1])
+                if q_ & (q_ - 1):            # non-dyadic scale: float keys are rounded, ties may fall differently: certificate only
+                    n_nondyadic += 1
+                    continue
+                gtm = graph_term(case, q_)
+                hsc = [x if x == "inf" else p_ * x for x in case["h"]]
+                mirror_mult[len(terms)] = q_
                 if "inf" in case["h"]:       # +inf keys: exercises the stale-node skip of the loop (no optimality theorem; certificate gates)
-                    hs = coqlist("None" if x == "inf" else "(Some %s)" % zlit(x) for x in case["h"])
-                    terms.append("mir_ai %s %s %s %s" % (gt, coqlist(natlist(o) for o in out["shuffles"]), hs, tb))
+                    hs = coqlist("None" if x == "inf" else "(Some %s)" % zlit(x) for x in hsc)
+                    terms.append("mir_ai %s %s %s %s" % (gtm, coqlist(natlist(o) for o in out["shuffles"]), hs, tb))
                 else:
-                    terms.append("mir_a %s %s %s %s" % (gt, coqlist(natlist(o) for o in out["shuffles"]), zlist(case["h"]), tb))
+                    terms.append("mir_a %s %s %s %s" % (gtm, coqlist(natlist(o) for o in out["shuffles"]), zlist(hsc), tb))
                 meta.append(("mir", i, alg))
 
     # the few big terms (seconds each) get a file of their own so that they run in parallel
@@ -544,7 +613,7 @@ def run(ctx):
             vals[k] = v
     nchk = nmir = drift = accepted = 0
     drift_samples = []
-    for (kind, i, alg), v in zip(meta, vals):
+    for k_, ((kind, i, alg), v) in enumerate(zip(meta, vals)):
         parent, case, out = units[i][0], units[i][1], units[i][2][alg]
         if isinstance(v, vlib.CoqError):
             ctx.violation("C05:coq-evaluation-failed", {"case": parent, "judged_problem": "second wrapper" if case is not parent else "main", "algorithm": alg, "error": str(v)[:800]}, found=False)
@@ -578,7 +647,7 @@ def run(ctx):
                 want = {"plan": None, "visited": mv.get("visited")}
             else:
                 want = {"plan": {"path": out["plan"]["path"], "acts": out["plan"]["acts"],
-                                 "value": out["plan"]["value_int"] if alg == "astar" else len(out["plan"]["acts"])},
+                                 "value": out["plan"]["value_int"] * mirror_mult.get(k_, 1) if alg == "astar" else len(out["plan"]["acts"])},
                         "visited": out["visited"]}
             if mv != want:
                 drift += 1          # covered by the certificate (drift-cleared) unless the certificate failed too
@@ -605,7 +674,8 @@ def run(ctx):
         "samples": [{"case": cases[0], "impl": impl[0]}] if cases else [],
         "certificate_checks": nchk, "certificate_accepts": accepted, "mirror_runs": nmir, "mirror_drift": drift,
         "mirror_drift_samples": drift_samples,
-        "nested_heuristic_values_checked": n_nested_h, "long_plan_certificate_checks": n_long_checks, "branch_counts": branch,
+        "nested_heuristic_values_checked": n_nested_h, "long_plan_certificate_checks": n_long_checks, "nondyadic_scaled_heuristic_runs_certificate_only": n_nondyadic,
+        "first_results_reread_after_second_problem": n_requery, "same_problem_solved_again_at_process_end": n_rerun, "branch_counts": branch,
         "dict_distribution_runs_raising_TypeError": n_dict_err,
         "infinite_heuristic_runs_raising_AssertionError": n_inf_assert,
         "from_mdp_model": model_reads, "from_mdp_model_behind_code_runs": stale_from_mdp_model,
